@@ -191,6 +191,20 @@ def rebind_history(ctx, rc, tags, out, lat_case, bins, explicit, rng):
     if not ok or not numpy.array_equal(numpy.asarray(pr, dtype=float), (ref2.sum(axis=1) > 0).astype(float)):
         ctx.violate("after re-binding the catalog to another region the occupancy map is not that of the new region", rc,
                     tags=dict(t2, api="spatial_event_probability", clause="stale-after-rebind"))
+    # history: the stored event array of the (already gridded) catalog is re-ordered in place, then gridded again
+    if len(cell2) >= 2:
+        o = rng.permutation(len(cell2))
+        cat.catalog[:] = cat.catalog[o]
+        ref3 = numpy.zeros((reg2.num_nodes, bins.size))
+        numpy.add.at(ref3, (cell2[o], numpy.asarray(mk)[o]), 1)          # same multiset: ref3 == ref2
+        ok, smc, tb = ctx.call(cat.spatial_magnitude_counts, **kw)
+        ok1, sc, tb = ctx.call(cat.spatial_counts)
+        ok2, mc, tb = ctx.call(cat.magnitude_counts, **kw)
+        ctx.mon("history:inplace-reorder", 1)
+        if not ok or not ok1 or not ok2 or not numpy.array_equal(numpy.asarray(smc, dtype=float), ref3) or \
+                not numpy.array_equal(numpy.asarray(sc, dtype=float), ref3.sum(axis=1)) or not numpy.array_equal(numpy.asarray(mc, dtype=float), ref3.sum(axis=0)):
+            ctx.violate("after re-ordering the stored events in place the gridded counts change", rc, observed=repr(smc)[:160],
+                        tags=dict(t2, api="spatial_magnitude_counts", clause="stale-after-inplace-reorder", history="grid, permute catalog array in place, grid again"))
     # a region with a hole under an event must now reject the catalog
     if n_cells > 1:
         drop = int(cell[0])
